@@ -112,10 +112,20 @@ Theorem clientip_selection :
   forall (chk : bool) (r : router) (pats : list bytes) (tab : table) (key : nat) (rt : route) (p : probe),
     lookup key tab = Some rt -> rt_handler rt = true ->
     let k := dispatch_kind (rt_ignore rt) (rt_redirect rt) (g_noMethod r) (g_autoOptions r) p in
-    run_op chk r pats tab (OProbe key p) =
-      (tab, ObsProbe k (res_cip (match k with KRoute => rt_clientip rt | _ => g_clientip r end))).
+    let v := match k with
+             | KRoute => (res_cip (rt_clientip rt), Some (rt_pattern rt))
+             | _ => (res_cip (g_clientip r), None)
+             end in
+    (* the same on the handler's context, on its Clone, on its CloneWith copy, and downstream of a middleware that
+       hands the CloneWith copy to the route handler *)
+    run_op chk r pats tab (OProbe key p) = (tab, ObsProbe k v v v (match k with KRoute => Some v | _ => None end)).
 Proof. exact clientip_selection_l. Qed.
 Print Assumptions clientip_selection.
+
+Theorem clone_preserves_view :
+  forall (r : router) (c : ctx), view_of r (clone c) = view_of r c /\ view_of r (clone_with c) = view_of r c.
+Proof. exact clone_preserves_view_l. Qed.
+Print Assumptions clone_preserves_view.
 
 (* ---- invalid options are rejected, nothing panics ---- *)
 (* the full statement *)
@@ -169,6 +179,9 @@ Example options_example :
             OCreate VUpdate 0 true [OAnnot KNil None]; OCreate VHandle 0 false []]
   = RRun (false, true, true, true, false)
          [ObsErr None (Some (mkSnap (S2B "a.{b}.com/x/*{y}") (S2B "a.{b}.com") (S2B "/x/*{y}") 2 true false None 3));
-          ObsAnnot (Some 6); ObsProbe KRoute CIPNone; ObsProbe KNoMethod (CIP 1);
+          ObsAnnot (Some 6);
+          ObsProbe KRoute (CIPNone, Some (S2B "a.{b}.com/x/*{y}")) (CIPNone, Some (S2B "a.{b}.com/x/*{y}"))
+                   (CIPNone, Some (S2B "a.{b}.com/x/*{y}")) (Some (CIPNone, Some (S2B "a.{b}.com/x/*{y}")));
+          ObsProbe KNoMethod (CIP 1, None) (CIP 1, None) (CIP 1, None) None;
           ObsErr (Some ErrInvalidConfig) None; ObsErr (Some ErrInvalidRoute) None].
 Proof. vm_compute. reflexivity. Qed.
